@@ -22,6 +22,8 @@ pub enum OpKind {
     Fence,
     PtrLoad,
     PtrCas,
+    /// a plain (non-atomic) read or write of a payload slot is about to happen
+    Plain,
 }
 
 /// The interface a verification harness implements.
@@ -89,6 +91,13 @@ fn after(kind: OpKind, addr: usize, changed: bool) {
     if let Some(r) = rt() {
         r.after_op(kind, addr, changed)
     }
+}
+
+/// Announces a plain (non-atomic) access to a payload slot, so that a runtime can
+/// interleave other threads between the surrounding atomics and the access itself.
+pub fn plain_access<T>(p: *const T) {
+    before(OpKind::Plain, p as usize);
+    after(OpKind::Plain, p as usize, false);
 }
 
 pub fn touch<T>(p: *const T) {
